@@ -1,4 +1,93 @@
 //! @module network::verif_proofs
-//! Kani contracts and proof harnesses for this module (child module, cfg(kani) only).
+//! C05 framing layer. The deciding engine is the Verus unit `inbound` (contracts on the extracted
+//! text of parse_protocol_message). This module holds only the NATIVE FAILING-INPUT SEARCH that the
+//! driver runs when that proof no longer goes through for a reason other than a tagged
+//! postcondition: it looks for a concrete frame that the real function treats differently from the
+//! property statement. A hit is reported with the input; no hit leaves the run UNDECIDED.
 #![allow(unused_imports)]
 use super::*;
+
+#[cfg(test)]
+mod search {
+    use super::*;
+
+    fn now_secs() -> u64 {
+        std::time::SystemTime::now().duration_since(std::time::UNIX_EPOCH).map(|d| d.as_secs()).unwrap_or(0)
+    }
+
+    /// window from the statement: 5 minutes back, 30 seconds ahead
+    fn in_window(ts: u64, now: u64) -> bool {
+        (now as i128 - 300) <= ts as i128 && ts as i128 <= now as i128 + 30
+    }
+
+    #[test]
+    fn verif_search_c05_frames() {
+        let seed: u64 = std::env::var("VERIF_SEED").ok().and_then(|s| s.parse().ok()).unwrap_or(0);
+        let offsets: [i64; 34] = [
+            -1_000_000, -86_400, -3_600, -600, -400, -303, -302, -301, -300, -299, -298, -200, -60, -2, -1, 0, 1, 2, 20, 28, 29, 30, 31,
+            32, 45, 60, 120, 299, 300, 301, 302, 400, 3_600, 1_000_000,
+        ];
+        let claims = ["", "someone-else", "peer-A", "\u{0}"];
+        let sources = ["peer-A", "transport-id-1", ""];
+        let mut tried = 0usize;
+        for (k, off) in offsets.iter().enumerate() {
+            for extra in 0..2u64 {
+                for claim in claims {
+                    for source in sources {
+                        let before = now_secs();
+                        let ts = if extra == 1 && k < 4 { [0u64, 1, u64::MAX, u64::MAX - 1][k] } else { (before as i64 + off) as u64 };
+                        let payload: Vec<u8> = (0..((k as u64 + seed) % 7)).map(|i| (i * 37 + seed) as u8).collect();
+                        let msg = WireMessage { protocol: format!("topic-{}", k), data: payload.clone(), from: claim.to_string(), timestamp: ts };
+                        let bytes = postcard::to_stdvec(&msg).expect("encode");
+                        let r = parse_protocol_message(&bytes, source);
+                        let after = now_secs();
+                        tried += 1;
+                        let (a, b) = (in_window(ts, before), in_window(ts, after));
+                        if a == b && r.is_some() != a {
+                            panic!("VERIF-SEARCH-HIT C05/frame/surfaced_only_within_the_timestamp_window timestamp=now{:+} (ts={} now={}) surfaced={} claimed_from={:?} source={:?}", off, ts, before, r.is_some(), claim, source);
+                        }
+                        match r {
+                            None => {}
+                            Some(P2PEvent::Message { topic, source: s, data }) => {
+                                if s != source {
+                                    panic!("VERIF-SEARCH-HIT C05/frame/source_is_the_authenticated_connection_identity attached={:?} connection={:?} claimed_from={:?}", s, source, claim);
+                                }
+                                if topic != msg.protocol || data != payload {
+                                    panic!("VERIF-SEARCH-HIT C05/frame/topic_and_payload_come_from_the_frame");
+                                }
+                            }
+                            Some(_) => panic!("VERIF-SEARCH-HIT C05/frame/only_message_events_are_produced"),
+                        }
+                    }
+                }
+            }
+        }
+        // hostile bytes: truncations and single-byte mutations of a valid frame, plus junk; must return
+        let good = postcard::to_stdvec(&WireMessage { protocol: "t".into(), data: vec![1, 2, 3], from: "x".into(), timestamp: now_secs() }).expect("encode");
+        let mut x = 0x9e37_79b9_7f4a_7c15u64 ^ seed.wrapping_mul(0x1000_0000_01b3) | 1;
+        for i in 0..2000usize {
+            x ^= x << 13;
+            x ^= x >> 7;
+            x ^= x << 17;
+            let mut b = good.clone();
+            match i % 4 {
+                0 => b.truncate((x as usize) % (good.len() + 1)),
+                1 => {
+                    let p = (x as usize) % b.len();
+                    b[p] = (x >> 8) as u8;
+                }
+                2 => b.extend((0..(x % 64)).map(|j| (x >> (j % 56)) as u8)),
+                _ => b = (0..(x % 96)).map(|j| (x.rotate_left(j as u32)) as u8).collect(),
+            }
+            let res = std::panic::catch_unwind(|| parse_protocol_message(&b, "conn"));
+            match res {
+                Err(_) => panic!("VERIF-SEARCH-HIT C05/frame/returns_normally_for_every_byte_string bytes={:?}", b),
+                Ok(Some(P2PEvent::Message { source, .. })) if source != "conn" => {
+                    panic!("VERIF-SEARCH-HIT C05/frame/source_is_the_authenticated_connection_identity bytes={:?}", b)
+                }
+                Ok(_) => {}
+            }
+        }
+        assert!(tried > 500);
+    }
+}
